@@ -3,11 +3,11 @@
 import json, os, re, shutil, sys
 VERIF = os.path.dirname(os.path.dirname(os.path.abspath(__file__)))
 for d in sorted(os.listdir("/tmp")):
-    m = re.match(r"seed(2?)-(C\d\d)$", d)
+    m = re.match(r"seed(\d?)-(C\d\d)$", d)
     if not m:
         continue
     prop = m.group(2)
-    rnd = "r2" if m.group(1) else ""
+    rnd = ("r" + m.group(1)) if m.group(1) else ""
     for mm in ("m1", "m2"):
         src = os.path.join("/tmp", d, mm)
         if not os.path.exists(os.path.join(src, "patch.diff")) or not os.path.exists(os.path.join(src, "confirm.txt")):
